@@ -268,6 +268,32 @@ func readTar(path string) ([]Member, error) {
 
 var caseCounter int
 
+// Thorough is set by Generate for the thorough tier: the archive is also extracted with GNU tar.
+var Thorough bool
+
+// gnuTarExtract: extract into an empty directory (as root, keeping device nodes) and look for every member.
+func gnuTarExtract(base, tarPath string, members []Member) bool {
+	dir := base + "/extract"
+	if err := os.Mkdir(dir, 0755); err != nil {
+		panic(err)
+	}
+	cmd := exec.Command("tar", "-xpf", tarPath, "-C", dir, "--numeric-owner")
+	cmd.Env = []string{"PATH=/usr/bin:/bin", "LC_ALL=C"}
+	out, err := cmd.CombinedOutput()
+	if err != nil {
+		fmt.Fprintf(os.Stderr, "c06: GNU tar failed: %v: %s\n", err, firstLine(string(out)))
+		return false
+	}
+	for _, m := range members {
+		var st syscall.Stat_t
+		if err := syscall.Lstat(dir+"/"+string(m.Name), &st); err != nil {
+			fmt.Fprintf(os.Stderr, "c06: member %q missing after extraction: %v\n", m.Name, err)
+			return false
+		}
+	}
+	return true
+}
+
 // Run materialises the input, runs the real binary three times and emits the case.
 func Run(in Input) *common.Case {
 	caseCounter++
@@ -371,6 +397,11 @@ func Run(in Input) *common.Case {
 		}
 		return q.App("Ok", q.List(ts))
 	})
+	extractOK := true
+	if Thorough && genRun.Class == "ok" {
+		extractOK = gnuTarExtract(base, tarPath, members)
+		obsDesc["gnu_tar_extract"] = extractOK
+	}
 	obsDesc["names"] = common.Bs(names)
 	obsDesc["members"] = members
 	desc["obs"] = obsDesc
@@ -419,7 +450,7 @@ func Run(in Input) *common.Case {
 	}
 	inTerm := q.App("MkIn", q.List(nts), q.List(pts), q.Bool(in.NoVDB), q.Bool(in.EmptyDev), q.HxList(script))
 	c.Coq = q.App("C06.MkCase", inTerm, q.Bool(in.NoBdeps), q.Bool(selOK),
-		q.App("C06.MkObs", listTerm, tarTerm))
+		q.App("C06.MkObs", listTerm, tarTerm, q.Bool(extractOK)))
 
 	js, _ := json.Marshal(in)
 	h := sha1.Sum(js)
